@@ -92,7 +92,13 @@ package ipset
 //@   abstract
 //@   nosafety all pre
 //@   assert at call internal/ipset.bounds#1: arg0 == lastret("(net/netip.Prefix).Masked")
-//@   assert at call (net/netip.Prefix).Masked#1: arg0 == entry_p
+//@   # C17 ("an IPv4-mapped IPv6 source counts as IPv4 ... mixed families"): a prefix written in IPv4-mapped form with a
+//@   # length of at least 96 is filed as the IPv4 prefix it denotes - the unmapped address with 96 bits fewer - so that it
+//@   # lies in the table the unmapped sources are looked up in; every other prefix is filed as it was written
+//@   assert at call (net/netip.Prefix).Masked#1: calls("net/netip.PrefixFrom") == 0 ==> arg0 == entry_p
+//@   assert at call (net/netip.Prefix).Masked#1: calls("net/netip.PrefixFrom") == 1 ==> arg0 == lastret("net/netip.PrefixFrom")
+//@   assert at call net/netip.PrefixFrom#1: lastret("(net/netip.Addr).Is4In6") && lastret("(net/netip.Prefix).Bits#1") >= 96 && arg0 == lastret("(net/netip.Addr).Unmap") && arg1 == lastret("(net/netip.Prefix).Bits#2") - 96
+//@   possible at call net/netip.PrefixFrom#1: true
 //@   assert at append#1: lastret("(net/netip.Addr).Is4") && src[0].lo == lastret("internal/ipset.bounds") && src[0].hi == lastret("internal/ipset.bounds", 1) && region(dst) == region(s.v4)
 //@   assert at append#2: !lastret("(net/netip.Addr).Is4") && src[0].lo == lastret("internal/ipset.bounds") && src[0].hi == lastret("internal/ipset.bounds", 1) && region(dst) == region(s.v6)
 //@
